@@ -6,11 +6,13 @@ K(n, D, o, cls, dcls) == [n |-> n, D |-> D, o |-> o, cls |-> cls, dcls |-> dcls]
 Vars(n) == [j \in 1..n |-> "var"]
 Base(n) == CASE n = 1 -> <<3>> [] n = 2 -> <<2, 3>> [] n = 3 -> <<3, 2, 3>> [] n = 4 -> <<2, 3, 2, 3>>
 Id(n) == [j \in 1..n |-> j]
-\* dims fitted to the classes: a position holding a {0,1}-only class gets dimension 2
-DFor(n, cls) == [j \in 1..n |-> IF cls[j] \in BoolOnly THEN 2 ELSE Base(n)[j]]
+\* dims fitted to the classes: a position holding a {0,1}-only class gets dimension 2, any other
+\* operator class dimension 3 (odd multiples make captured tails visible), plain variables the base
+DFor(n, cls) == [j \in 1..n |-> IF cls[j] \in BoolOnly THEN 2 ELSE IF cls[j] = "var" THEN Base(n)[j] ELSE 3]
 OneAt(n, j, c) == [i \in 1..n |-> IF i = j THEN c ELSE "var"]
 AllOf(n, c) == [i \in 1..n |-> c]
-NonVar == ArgClasses \ {"var"}
+NonVar == IdxClasses \ {"var"}
+DimNonVar == DimClasses \ {"var"}
 
 \* design (1): bijection for every dimension vector and every permutation
 BijKernels ==
@@ -19,8 +21,9 @@ BijKernels ==
 \* design (2): arguments stay whole, every class in every position (dims 1: one tuple per kernel)
 Ones(n) == [j \in 1..n |-> 1]
 WholeKernels ==
-  {K(2, Ones(2), o, cls, dcls) : o \in Perms(2), cls \in [1..2 -> ArgClasses], dcls \in {Vars(2), <<"add", "tern">>, <<"band", "shr">>}}
-  \cup {K(3, Ones(3), o, cls, Vars(3)) : o \in Perms(3), cls \in [1..3 -> {"var", "add", "mul", "shr", "band", "tern", "lor", "neg", "paren"}]}
+  {K(2, Ones(2), o, cls, dcls) : o \in Perms(2), cls \in [1..2 -> IdxClasses], dcls \in {Vars(2), <<"add", "tern">>, <<"band", "shr">>, <<"dmod", "div">>}}
+  \cup {K(2, Ones(2), o, Vars(2), dcls) : o \in Perms(2), dcls \in [1..2 -> DimClasses]}
+  \cup {K(3, Ones(3), o, cls, Vars(3)) : o \in Perms(3), cls \in [1..3 -> {"var", "add", "div", "mod", "shr", "band", "tern", "lor", "paren"}]}
   \cup {K(4, Ones(4), o, cls, Vars(4)) : o \in {Id(4), <<4, 3, 2, 1>>, <<2, 4, 1, 3>>}, cls \in [1..4 -> {"var", "sub", "bor", "tern"}]}
 
 \* generation
@@ -28,12 +31,17 @@ OrderKernels == UNION {{K(n, Base(n), o, Vars(n), Vars(n)) : o \in Perms(n)} : n
 ClassKernels(n, orders) ==
   {K(n, DFor(n, OneAt(n, j, c)), o, OneAt(n, j, c), Vars(n)) : j \in 1..n, c \in NonVar, o \in orders}
   \cup {K(n, DFor(n, AllOf(n, c)), o, AllOf(n, c), Vars(n)) : c \in NonVar, o \in orders}
+\* dimension arguments: every dimension class in every position, under orders that put every position
+\* first, in the middle and last
 DimClassKernels ==
-  {K(2, Base(2), o, Vars(2), <<c, "var">>) : o \in Perms(2), c \in {"add", "band", "tern", "shr", "mul", "bor"}}
-  \cup {K(3, Base(3), <<2, 3, 1>>, <<"band", "var", "add">>, <<"var", c, "var">>) : c \in {"add", "tern", "bxor"}}
+  {K(2, <<3, 3>>, o, Vars(2), OneAt(2, j, c)) : o \in Perms(2), j \in 1..2, c \in DimNonVar}
+  \cup {K(3, <<3, 3, 3>>, o, Vars(3), OneAt(3, j, c)) : o \in {Id(3), <<2, 3, 1>>}, j \in 1..3, c \in {"add", "shr", "band", "tern", "dmod", "div"}}
+  \cup {K(3, <<3, 3, 3>>, <<2, 3, 1>>, <<"band", "var", "mod">>, <<"var", c, "var">>) : c \in {"add", "tern", "bxor"}}
+\* orders of arity 3 in which position 3, 2, 1 respectively is the LAST one (the inner operand of the product)
+LastEach3 == {Id(3), <<3, 1, 2>>, <<2, 3, 1>>}
 
 QuickDimKernels ==
-  OrderKernels \cup ClassKernels(2, Perms(2)) \cup ClassKernels(3, { <<3, 1, 2>> }) \cup DimClassKernels
+  OrderKernels \cup ClassKernels(2, Perms(2)) \cup ClassKernels(3, LastEach3) \cup DimClassKernels
 ThoroughDimKernels ==
   OrderKernels \cup ClassKernels(2, Perms(2)) \cup ClassKernels(3, Perms(3))
   \cup ClassKernels(4, {Id(4), <<4, 3, 2, 1>>, <<2, 4, 1, 3>>, <<3, 1, 4, 2>>}) \cup DimClassKernels
